@@ -75,16 +75,17 @@ func newEvaluator(dir string, runner ociauth.HelperRunner) *evaluator {
 }
 
 type evalResult struct {
-	findings      map[string]finding
-	names         []string
-	exps          []expectation
-	lookups       int
-	loads         int
-	loadErrs      int
-	loadErrTexts  map[string]struct{}
-	vectors       int  // distinct outcome vectors over the loads
-	lookupTextVar bool // some lookup failed with different messages on different loads
-	allErr        []bool
+	findings          map[string]finding
+	names             []string
+	exps              []expectation
+	lookups           int
+	concurrentLookups int
+	loads             int
+	loadErrs          int
+	loadErrTexts      map[string]struct{}
+	vectors           int  // distinct outcome vectors over the loads
+	lookupTextVar     bool // some lookup failed with different messages on different loads
+	allErr            []bool
 }
 
 func (r *evalResult) add(f finding) {
@@ -228,6 +229,46 @@ func (ev *evaluator) eval(d *doc, loads, passes int, rng *rand.Rand) *evalResult
 							What:   fmt.Sprintf("EntryForRegistry(%q) differs between fresh loads of the same file: %s on an earlier load, %s on load %d", names[i], showOutcome(ref[i]), showOutcome(o), l),
 							Lookup: names[i], Observed: showOutcome(o), Expected: showOutcome(ref[i])})
 					}
+				}
+			}
+			if ev.runner == nil && l == 0 && len(names) > 1 {
+				// the documented contract lets EntryForRegistry be called concurrently: with the real
+				// helper programs, overlapping lookups on this ConfigFile must answer as the sequential ones did
+				var cwg sync.WaitGroup
+				var cmu sync.Mutex
+				diffs := map[int]outcome{}
+				for g := 0; g < 6; g++ {
+					cwg.Add(1)
+					go func(g int) {
+						defer cwg.Done()
+						defer func() {
+							if e := recover(); e != nil {
+								st := debug.Stack()
+								cmu.Lock()
+								r.add(finding{Key: "total/EntryForRegistry/panic/" + evid.PanicSite(st), What: fmt.Sprintf("panic in a concurrent EntryForRegistry: %v", e), Stack: string(st)})
+								cmu.Unlock()
+							}
+						}()
+						for k := range names {
+							i := (k + g*3) % len(names)
+							e, err := cf.EntryForRegistry(names[i])
+							o := outcome{Err: err != nil}
+							if err == nil {
+								o.E = e
+							}
+							if curSet[i] && cur[i] != o {
+								cmu.Lock()
+								diffs[i] = o
+								cmu.Unlock()
+							}
+						}
+					}(g)
+				}
+				cwg.Wait()
+				r.concurrentLookups += 6 * len(names)
+				for i, o := range diffs {
+					r.add(finding{Key: "determinism/concurrent-lookups", What: fmt.Sprintf("EntryForRegistry(%q) answered %s while other lookups on the same ConfigFile were in flight; sequentially it answered %s", names[i], showOutcome(o), showOutcome(cur[i])),
+						Lookup: names[i], Observed: showOutcome(o), Expected: showOutcome(cur[i])})
 				}
 			}
 			vec := append([]outcome(nil), cur...)
@@ -626,6 +667,7 @@ func account(phase string, d *doc, r *evalResult, c map[string]int, dist map[str
 	c[p+"documents"]++
 	c[p+"loads"] += r.loads
 	c[p+"lookups"] += r.lookups
+	c[p+"concurrent_lookups"] += r.concurrentLookups
 	if d.Invalid {
 		c[p+"invalid_auth_docs"]++
 		c[p+"invalid_auth_loads_rejected"] += r.loadErrs
